@@ -234,6 +234,7 @@ var lexPieces = []string{
 	"+", "-", "*", "%", "|", ",", ";", "(", ")", "[", "]", "{", "}", "#", "@", "\x00", "\xff", "\xc3", "\xe2\x82",
 	"0x00000000000000001", "0x0000000000000000000ff", "0x0ffffffffffffffff", "9007199254740993", "18446744073709551615", "18446744073709551616",
 	"'\\u0041'", "\"\\u0027\"", "0.5.5", "0..5", "00.1.2",
+	"\xa0", "\x85", " \xa0", "\n\x85", "\ufeff", "00e5", "000e-3", "00E0", "0.0e5", "00.5e1", "0e5",
 	"/*", "*/", "/* c */", "/* c;\n d */", "AND", "Or", "IN", "By", "aNd",
 	// digits and numerics outside ASCII, other scripts' letters
 	"\u0663", "\uff15", "\u00b2", "\u2167", "\u0967", "\u4e00",
